@@ -57,6 +57,8 @@ def cases(tier, seed):
                 'supervised': bool(i % 3 == 2)})
   for i in range(n_lfda):
     out.append({'kind': 'lfda', 'i': i, 'seed': seed})
+  for i in range(8 if q else 48):
+    out.append({'kind': 'rca-degenerate', 'i': i, 'seed': seed, 'n': 25})
   return out
 
 
@@ -69,12 +71,14 @@ def required(tier):
           'C09.lfda.affinity-from-sigma': 25 if q else 600,
           'C09.lfda.metric-from-affinity': 25 if q else 600,
           'C09.lfda.frame-captured': 25 if q else 600,
-          'C09.lfda.order': 10 if q else 250}
+          'C09.lfda.order': 10 if q else 250,
+          'C09.rca.degenerate': 80 if q else 500}
 
 
 def run_case(spec, j):
   api.set_judge(j)
-  {'cov': _cov, 'rca': _rca, 'lfda': _lfda_case}[spec['kind']](spec, j)
+  {'cov': _cov, 'rca': _rca, 'lfda': _lfda_case,
+   'rca-degenerate': _rca_degenerate}[spec['kind']](spec, j)
 
 
 # ---------------------------------------------------------------- Covariance
@@ -129,14 +133,20 @@ def _rca(spec, j):
   k = [None, None, 1, max(1, d - 1), int(rng.randint(1, d + 1))][spec['i'] % 5]
   det = {'d': d, 'n': ds['n'], 'n_components': k,
          'supervised': spec['supervised']}
-  if spec['supervised']:
-    cs = int(rng.choice([2, 3]))
+  degenerate = (spec['i'] % 6 == 5)
+  if degenerate:
+    # fewer chunks than features: inv(T) C has a repeated eigenvalue; the
+    # retained set cuts through the repeated group (k = d - 1)
+    k = max(1, d - 1)
+    det['n_components'] = k
+  if spec['supervised'] or degenerate:
+    cs = 3 if degenerate else int(rng.choice([2, 3]))
     feas = sum(int((y == c).sum()) // cs for c in np.unique(y))
     need = int(np.ceil((d + 2) / (cs - 1)))
     if feas < need:
       j.skip('C09.rca', 'not-enough-chunks')
       return
-    nch = int(min(feas, need + rng.randint(0, 4)))
+    nch = int(min(feas, need + (0 if degenerate else rng.randint(0, 4))))
     seed = int(rng.randint(0, 10**6))
     est = RCA_Supervised(n_components=k, n_chunks=nch, chunk_size=cs,
                          random_state=seed)
@@ -185,6 +195,59 @@ def _rca(spec, j):
   if j.sample is None:
     j.sample = dict(det, chunks=chunks[:20], gap=gap,
                     max_abs_LCLt_minus_I=np.abs(W - np.eye(kk)).max())
+
+
+def _rca_degenerate(spec, j):
+  """Fewer chunks than features: inv(T) C has the eigenvalue (N-1)/N with
+  multiplicity d - n_chunks + 1 and n_components cuts through that group.
+  Which directions of the group are kept is arbitrary, but the result must
+  be finite and must whiten the within-chunk covariance (D22)."""
+  from metric_learn import RCA
+  rng = rng_for('c9rcadeg', spec['seed'], spec['i'])
+  for t in range(spec['n']):
+    ds = D.well_formed(rng, d=int(rng.randint(4, 9)),
+                       variant=['plain', 'offset', 'unbalanced'][t % 3])
+    X, y, d = np.asarray(ds['X'], float), ds['y'], ds['d']
+    cs = int(rng.choice([3, 4]))
+    nch = int(np.ceil((d + 2) / (cs - 1)))
+    chunks = -np.ones(len(y), dtype=int)
+    cid = 0
+    for c in rng.permutation(np.unique(y)):
+      idx = rng.permutation(np.where(y == c)[0])
+      for i in range(0, len(idx) - cs + 1, cs):
+        if cid < nch:
+          chunks[idx[i:i + cs]] = cid
+          cid += 1
+    if cid < nch or nch - 1 >= d - 1:
+      j.count('rca-degenerate.not-constructible')
+      continue
+    k = int(rng.randint(max(1, nch), d))      # inside the repeated group
+    det = {'d': d, 'n_chunks': nch, 'chunk_size': cs, 'n_components': k}
+    with Quiet():
+      try:
+        est = RCA(n_components=k).fit(X, chunks)
+      except Exception as e:
+        j.violated('C09.rca.degenerate', dict(det, raised=repr(e)[:200]),
+                   mechanism='rca-raised')
+        continue
+    L = est.components_
+    if L.dtype.kind != 'f' or not np.all(np.isfinite(L)) or \
+            L.shape != (k, d):
+      j.violated('C09.rca.degenerate',
+                 dict(det, why='components_ not a finite real (k, d) array',
+                      shape=L.shape, dtype=str(L.dtype)),
+                 mechanism='rca-bad-L')
+      continue
+    C, N = CF.rca_within_chunk_cov(X, chunks)
+    condC = np.linalg.cond(C)
+    if condC > 1e10:
+      j.skip('C09.rca.degenerate', 'ill-conditioned')
+      continue
+    j.close('C09.rca.degenerate', L.dot(C).dot(L.T), np.eye(k),
+            1e-8 * max(condC, 1.0), dict(det, condC=condC))
+    j.distinct('rca-degenerate', X.tobytes(), k)
+  if j.sample is None:
+    j.sample = {'kind': 'rca-degenerate', 'last': det}
 
 
 # ---------------------------------------------------------------------- LFDA
